@@ -629,6 +629,7 @@ func (i *Interp) runPath(harness *ssa.Function, item workItem) {
 		i.path.ev = newEvalCtx(item.model)
 	}
 	i.steps = 0
+	i.allocCells = 0
 	i.stubs = nil
 	i.symSched = false
 	i.preemptBudget = 0
